@@ -108,6 +108,10 @@ fn spawn_worker(
     if reverse {
         cmd.arg("--reverse");
     }
+    let re = crate::REAL_EVERY.load(std::sync::atomic::Ordering::Relaxed);
+    if re > 0 {
+        cmd.args(["--real-every", &re.to_string()]);
+    }
     cmd.env_remove("RUST_BACKTRACE");
     cmd.stdin(Stdio::null())
         .stdout(Stdio::piped())
@@ -406,6 +410,19 @@ pub fn check(args: &[String]) -> i32 {
         .and_then(|s| s.parse().ok())
         .unwrap_or(16);
     let t = tier_for(&prop, &tier);
+    if prop == "C11" {
+        let every: u64 = std::env::var("VERIF_REAL_EVERY")
+            .ok()
+            .and_then(|s| s.parse().ok())
+            .unwrap_or(if tier == "quick" { 40 } else { 20 });
+        crate::REAL_EVERY.store(every, std::sync::atomic::Ordering::Relaxed);
+        for exe in [crate::c11::REALPROC, crate::c11::REALPROC_DULL] {
+            if !std::path::Path::new(exe).exists() {
+                println!("HARNESS-ERROR: {} is missing (run ./check --setup)", exe);
+                return 2;
+            }
+        }
+    }
     println!("VERIF_SEED={} property={} tier={} workers={}", seed, prop, tier, workers);
     println!(
         "plan: {} fault-free runs, {} fault-injecting runs, determinism sample {}",
@@ -602,6 +619,12 @@ pub fn check(args: &[String]) -> i32 {
             dead.push(p.to_string());
         }
     }
+    if stats.get("real.harness_error") > 0 {
+        harness_errors.push(format!(
+            "{} real child processes could not be run",
+            stats.get("real.harness_error")
+        ));
+    }
     if !dead.is_empty() {
         harness_errors.push(format!("probes never hit: {}", dead.join(", ")));
     }
@@ -653,6 +676,10 @@ pub fn check(args: &[String]) -> i32 {
                     J::s("main: 16 worker processes, ascending run order; proof: 1 process (fault pass) and 3 processes (fault-free pass), descending run order"),
                 ),
             ]),
+        ),
+        (
+            "traces_validated_against_impl",
+            J::Int(stats.get("rule.P4.evaluated") as i64),
         ),
         ("violating_runs", J::Int(total_violating_runs as i64)),
         ("distinct_violation_keys", J::Int(by_key.len() as i64)),
